@@ -135,7 +135,7 @@ def check(ctx, prop):
     for dev, (inv, where) in sorted(DEVIATIONS.items()):
         h, r = T.counterexample_hist(ctx, d, "MC_S3Health.tla", "Dev_S3Health_%s.cfg" % dev, var="hist", timeout=600, workers=4)
         if h is None or inv not in r.violated:
-            raise Broken("deviation %s no longer violates %s in the model (vacuous deviation)" % (dev, inv))
+            raise Broken("deviation %s does not violate %s in the model (vacuous deviation, or TLC failed):\n%s" % (dev, inv, r.out[-1500:]))
         cfg = json.load(open(os.path.join(d, "ce-Dev_S3Health_%s.json" % dev)))["counterexample"]["state"][-1][1]["cfg"]
         s = {"cfg": cfg, "win": DEV_WIN, "maxn": DEV_MAXN, "steps": h}
         if where == "gate":
